@@ -47,16 +47,18 @@ STORAGE_FILES = {
     "GeometricReservoirStorage": "ixai/storage/geometric_reservoir_storage.py",
     "UniformReservoirStorage": "ixai/storage/uniform_reservoir_storage.py",
 }
+TRACKER_FILES["SlidingWindowTracker"] = "ixai/utils/tracker/sliding_window.py"
 FILES = {**TRACKER_FILES, **STORAGE_FILES}
 
 FIELD_TYPES = {
     "tracked_value": "K", "N": "Nat", "sum_squares": "K", "alpha": "K",
     "storage_x": "LX", "storage_y": "LY", "store_targets": "Bool", "size": "Nat",
     "constant_probability": "K", "stored_samples": "Nat", "algo_wt": "K", "algo_l_counter": "K",
+    "window_k": "Nat", "k": "Nat", "sliding_window": "LOK",
 }
 PARAM_TYPES = {
     "value_i": "K", "alpha": "K", "x": "X", "y": "Y", "size": "Nat", "store_targets": "Bool",
-    "constant_probability": "OptK",
+    "constant_probability": "OptK", "k": "Nat",
 }
 # classes to emit, with the methods/properties to translate (inherited ones are looked up in the bases)
 EMIT = {
@@ -67,9 +69,10 @@ EMIT = {
     "SequenceStorage": dict(methods=["update"], props=[], tparams="XY"),
     "GeometricReservoirStorage": dict(methods=["update"], props=[], tparams="KXY"),
     "UniformReservoirStorage": dict(methods=["update"], props=[], tparams="KXY"),
+    "SlidingWindowTracker": dict(methods=["update"], props=[], tparams="K"),
 }
 LEAN_TY = {"K": "K", "Nat": "Nat", "Bool": "Bool", "X": "X", "Y": "Y", "LX": "List X", "LY": "List Y",
-           "OptK": "Option K"}
+           "OptK": "Option K", "LOK": "List (Option K)"}
 
 
 def fld(name):
@@ -378,6 +381,14 @@ class Tr:
                 return self.draw_idx(cast(v, t, "Nat", c, e))
             v, t = self.expr(hi)
             return self.draw_idx(f"({cast(v, t, 'Nat', c, e)} + 1)")
+        if name in ("np.array", "numpy.array", "np.asarray") and len(args) == 1 and isinstance(args[0], ast.ListComp):
+            lc = args[0]
+            if ast.unparse(lc.elt) in ("np.nan", "np.NaN", "numpy.nan", "float('nan')", "math.nan") and len(lc.generators) == 1 \
+                    and isinstance(lc.generators[0].iter, ast.Call) and ast.unparse(lc.generators[0].iter.func) == "range" \
+                    and len(lc.generators[0].iter.args) == 1 and not lc.generators[0].ifs:
+                v, t = self.expr(lc.generators[0].iter.args[0])
+                return f"(List.replicate {cast(v, t, 'Nat', c, e)} none)", "LOK"
+            c.err(e, "unsupported array construction")
         if name == "deque" and not args:
             return "[]", "EmptyList"
         if name == "list" and len(args) <= 1:
@@ -477,11 +488,11 @@ class Tr:
                 and isinstance(target.value.value, ast.Name) and target.value.value.id == "self":
             field = target.value.attr
             cur, ft = self.field_read(field, node)
-            if ft not in ("LX", "LY"):
+            if ft not in ("LX", "LY", "LOK"):
                 c.err(node, "item assignment on a non-list field")
             i, ti = self.expr(target.slice)
             i = cast(i, ti, "Nat", c, node)
-            v = cast(v, t, ft[1], c, node)
+            v = f"(some {cast(v, t, 'K', c, node)})" if ft == "LOK" else cast(v, t, ft[1], c, node)
             return self.set_field(field, f"({cur}).set {i} {v}", ft, node)
         c.err(node, "unsupported assignment target")
 
@@ -848,6 +859,64 @@ class PropExpr:
             tr.field_read = orig
 
 
+EXPR_KERNELS = {
+    "ConfBound": dict(
+        file="ixai/explainer/base.py", cls="BaseIncrementalFeatureImportance", method="get_confidence_bound", name="confBound",
+        params=[("alpha", "K"), ("seen", "Nat"), ("variance", "K"), ("delta", "K")],
+        bindings={"self._smoothing_alpha": "alpha", "self.seen_samples": "seen", "self.variances[feature_name]": "variance",
+                  "delta": "delta"}),
+}
+
+
+class BoundExpr(Tr):
+    """expression translator in which named sub-expressions of the source are bound to parameters"""
+
+    def __init__(self, ctx, bindings, types):
+        super().__init__(ctx)
+        self.bindings, self.types = bindings, types
+
+    def expr(self, e):
+        key = ast.unparse(e)
+        if key in self.bindings:
+            nm = self.bindings[key]
+            return nm, self.types[nm]
+        return super().expr(e)
+
+
+def translate_expr_kernel(repo, kname):
+    spec = EXPR_KERNELS[kname]
+    path = os.path.join(repo, spec["file"])
+    text = open(path).read()
+    tree = ast.parse(text, filename=spec["file"])
+    cls = [n for n in tree.body if isinstance(n, ast.ClassDef) and n.name == spec["cls"]]
+    if len(cls) != 1:
+        raise Unsupported(f"{spec['file']}: class {spec['cls']} not found")
+    fn = [n for n in cls[0].body if isinstance(n, ast.FunctionDef) and n.name == spec["method"]]
+    if len(fn) != 1:
+        raise Unsupported(f"{spec['file']}: method {spec['method']} not found")
+    rets = [n for n in ast.walk(fn[0]) if isinstance(n, ast.Return)]
+    if len(rets) != 1 or not isinstance(rets[0].value, ast.DictComp):
+        raise Unsupported(f"{spec['file']}:{fn[0].lineno}: {spec['method']} does not return one dict comprehension")
+    value = rets[0].value.value
+
+    class Dummy:
+        classes = {}
+    ctx = Ctx(None, kname, spec["file"])
+    tr = BoundExpr(ctx, spec["bindings"], dict(spec["params"]))
+    v, t = tr.expr(value)
+    v = cast(v, t, "K", ctx, value)
+    inst = ["[Add K]", "[Sub K]", "[Mul K]", "[Div K]", "[NatCast K]", "[OfNat K 0]", "[OfNat K 1]"]
+    if "realops" in ctx.uses:
+        inst.append("[RealOps K]")
+    params = " ".join(f"({n} : {LEAN_TY[ty]})" for n, ty in spec["params"])
+    asserts = [ast.unparse(n.test) for n in ast.walk(fn[0]) if isinstance(n, ast.Assert)]
+    body = f"namespace {kname}\nvariable {{K : Type}} {' '.join(inst)}\n\ndef {spec['name']} {params} : K :=\n  {v}\n\n"
+    if asserts:
+        body += "/- assertions in the Python source (not executed by the model): " + "; ".join(asserts) + " -/\n"
+    body += f"end {kname}"
+    return body, [spec["file"]], hashlib.sha256(text.encode()).hexdigest()[:16]
+
+
 HEADER = """-- GENERATED by /verif/tools/py2lean.py — do not edit. Regenerated from the Python source on every check run.
 -- source: {srcs}
 -- sha256: {sha}
@@ -875,6 +944,15 @@ def generate(repo, outdir):
                 with open(fname, "w") as fh:
                     fh.write(full)
             report[("Fl" if flv else "") + cname] = {"sources": rels, "sha256": sha, "changed": old != full}
+    for kname in EXPR_KERNELS:
+        text, rels, sha = translate_expr_kernel(repo, kname)
+        full = HEADER.format(srcs=", ".join(rels), sha=sha, ns="") + text + "\n\nend Ixai.Gen\n"
+        fname = os.path.join(outdir, kname + ".lean")
+        old = open(fname).read() if os.path.exists(fname) else None
+        if old != full:
+            with open(fname, "w") as fh:
+                fh.write(full)
+        report[kname] = {"sources": rels, "sha256": sha, "changed": old != full}
     return report
 
 
